@@ -86,6 +86,40 @@ pub fn gen_value(rng: &mut Rng, ty: &str, pool: &Pool) -> Value {
             1 => u128::MAX.to_string(),
             _ => (rng.next() as u128 * 3).to_string(),
         }),
+        "i64" => json!(match rng.below(4) {
+            0 => i64::MIN,
+            1 => i64::MAX,
+            _ => rng.next() as i64 >> rng.below(60),
+        }),
+        "Vec<String>" => {
+            let n = rng.below(4);
+            Value::Array((0..n).map(|_| json!(rng.word())).collect())
+        }
+        "Option<Pt>" => {
+            if rng.chance(1, 3) {
+                Value::Null
+            } else {
+                gen_value(rng, "Pt", pool)
+            }
+        }
+        "Vec<Pt>" => {
+            let n = rng.below(3);
+            Value::Array((0..n).map(|_| gen_value(rng, "Pt", pool)).collect())
+        }
+        "Option<Binary>" => {
+            if rng.chance(1, 3) {
+                Value::Null
+            } else {
+                gen_value(rng, "Binary", pool)
+            }
+        }
+        "Option<Vec<Coin>>" => {
+            if rng.chance(1, 3) {
+                Value::Null
+            } else {
+                gen_value(rng, "Vec<Coin>", pool)
+            }
+        }
         "Pt" => json!({"x": rng.below(200) as i64 - 100, "y": rng.word()}),
         "Kd" => {
             if rng.chance(1, 2) {
